@@ -166,13 +166,37 @@ theorem rawFree_mono {d : Delims} (g : Tag) (f z : List Char) (h : rawFree d g (
   cases g with
   | mk kind l r =>
     cases kind with
-    | raw c ri l2 =>
+    | raw c ri l2 tight =>
       simp only [rawFree] at h ⊢
       apply noBsIn_mono c _ z
       simpa [List.append_assoc] using h
-    | var => rfl
-    | block w => rfl
-    | comment => rfl
+    | var tight => rfl
+    | block w tight => rfl
+    | comment body => rfl
+
+theorem noPatIn_mono (pat c f z : List Char) (h : noPatIn pat c (f ++ z) = true) :
+    noPatIn pat c f = true := by
+  induction c with
+  | nil => rfl
+  | cons a c ih =>
+    simp only [noPatIn, Bool.and_eq_true, Bool.not_eq_true'] at h ⊢
+    refine ⟨?_, ih h.2⟩
+    apply startsWith_false_of_append z
+    simpa [List.append_assoc] using h.1
+
+theorem commentOk_mono {d : Delims} (g : Tag) (f z : List Char) (h : commentOk d g (f ++ z) = true) :
+    commentOk d g f = true := by
+  cases g with
+  | mk kind l r =>
+    cases kind with
+    | comment body =>
+      simp only [commentOk, Bool.and_eq_true] at h ⊢
+      refine ⟨⟨?_, h.1.2⟩, h.2⟩
+      apply noPatIn_mono d.ce _ _ z
+      simpa [List.append_assoc] using h.1.1
+    | var tight => rfl
+    | block w tight => rfl
+    | raw c ri l2 tight => rfl
 
 /-- shortening the last text to a prefix keeps the template delimiter-free -/
 theorem tailFree_mapLast {d : Delims} (f : List Char → List Char) (hf : ∀ s, ∃ z, s = f s ++ z)
@@ -188,23 +212,24 @@ theorem tailFree_mapLast {d : Delims} (f : List Char → List Char) (hf : ∀ s,
     | nil =>
       obtain ⟨z, hz⟩ := hf t'
       simp only [tailFree, Bool.and_eq_true, mapLastText, unparseTail, List.append_nil] at h ⊢
-      obtain ⟨⟨⟨h1, h2⟩, h3⟩, h4⟩ := h
+      obtain ⟨⟨⟨⟨h1, h2⟩, h3⟩, hc⟩, h4⟩ := h
       have e1 : g.src d ++ t' = (g.src d ++ f t') ++ z := by rw [List.append_assoc, ← hz]
       rw [e1] at h1 h2
-      rw [hz] at h3 h4
+      rw [hz] at h3 hc h4
       rw [noStartIn_append] at h4
       simp only [Bool.and_eq_true, List.append_nil] at h4
-      exact ⟨⟨⟨⟨noStartIn_mono _ _ z h1, ownLongest_mono _ _ z h2⟩, rawFree_mono g _ z h3⟩,
-        noStartIn_mono _ [] z (by simpa using h4.1)⟩, z, e1⟩
+      exact ⟨⟨⟨⟨⟨noStartIn_mono _ _ z h1, ownLongest_mono _ _ z h2⟩, rawFree_mono g _ z h3⟩,
+        commentOk_mono g _ z hc⟩, noStartIn_mono _ [] z (by simpa using h4.1)⟩, z, e1⟩
     | cons b tl =>
       have h' : noStartIn d t (unparseTail d ((g, t') :: b :: tl)) = true ∧
           ownLongest d (g.start d) (unparseTail d ((g, t') :: b :: tl)) = true ∧
-          rawFree d g (t' ++ unparseTail d (b :: tl)) = true ∧ tailFree d t' (b :: tl) = true := by
+          rawFree d g (t' ++ unparseTail d (b :: tl)) = true ∧
+          commentOk d g (t' ++ unparseTail d (b :: tl)) = true ∧ tailFree d t' (b :: tl) = true := by
         have := h
         rw [tailFree] at this
         simp only [Bool.and_eq_true] at this
-        exact ⟨this.1.1.1, this.1.1.2, this.1.2, this.2⟩
-      obtain ⟨h1, h2, h3, h4⟩ := h'
+        exact ⟨this.1.1.1.1, this.1.1.1.2, this.1.1.2, this.1.2, this.2⟩
+      obtain ⟨h1, h2, h3, hc, h4⟩ := h'
       obtain ⟨ih1, z, hz⟩ := ih t' h4
       have e1 : unparseTail d ((g, t') :: b :: tl) =
           unparseTail d ((g, t') :: mapLastText f (b :: tl)) ++ z := by
@@ -213,12 +238,13 @@ theorem tailFree_mapLast {d : Delims} (f : List Char → List Char) (hf : ∀ s,
       have e2 : t' ++ unparseTail d (b :: tl) = (t' ++ unparseTail d (mapLastText f (b :: tl))) ++ z := by
         rw [hz]; simp [List.append_assoc]
       rw [e1] at h1 h2
-      rw [e2] at h3
+      rw [e2] at h3 hc
       refine ⟨?_, z, ?_⟩
       · show tailFree d t ((g, t') :: mapLastText f (b :: tl)) = true
         rw [tailFree]
         simp only [Bool.and_eq_true]
-        exact ⟨⟨⟨noStartIn_mono _ _ z h1, ownLongest_mono _ _ z h2⟩, rawFree_mono g _ z h3⟩, ih1⟩
+        exact ⟨⟨⟨⟨noStartIn_mono _ _ z h1, ownLongest_mono _ _ z h2⟩, rawFree_mono g _ z h3⟩,
+          commentOk_mono g _ z hc⟩, ih1⟩
       · exact e1
 
 theorem delimFree_stripFinal {d : Delims} (tm : Tmpl) (h : delimFree d tm = true) :
